@@ -12,1085 +12,1096 @@ Definition show_fres (r : fres) : string :=
   end.
 Definition check (rs : list rune) : string := digest (show_fres (format_res rs)).
 Definition full (rs : list rune) : string := show_fres (format_res rs).
-Eval vm_compute in ("<<<M313>>>" ++ check (runes_of_ascii "options { BodyLength = char[ 7] ;	}
-// c
-// @lengthOf(
-packet asx// " ++ [128512]%N ++ runes_of_ascii " emoji
-{ int16
-    x_y_z , @calculatedFrom(
-    """" ) @lengthOf(
-    /// triple
-    chars) //
-repeat repeatCount
-charz
-/// triple
-// " ++ [27880; 37322]%N ++ runes_of_ascii "
-, @leftPad ( ) i64_@calculatedFrom(
-""\" ++ [233]%N ++ runes_of_ascii """	) `// not a comment` , tag Z9_
-`two words` ,
-@lengthOf( asx
-)@calculatedFrom(
-""`tick`""
-    )match uint8x as
-matchKey
-    {0123456789
-// packet A { u8 x, }
+Eval vm_compute in ("<<<M207>>>" ++ check (runes_of_ascii "root packet A {
+    } packet int //
+{
+    @calculatedFrom( ""a\""b""	) u32 x_y_z @lengthOf( u
+    ) , repeat
+    _x charz`tab	here`
+, stringy stringy ,
+@calculatedFrom(
+""" ++ [28040; 24687]%N ++ runes_of_ascii """ ) repeat
+// `tick` ""quote"" 'q'
 // a // b
-: u8x ,1 : zchar , } ,u128 @lengthOf( u128 // packet A { u8 x, }
-)// " ++ [128512]%N ++ runes_of_ascii " emoji
-, } MetaData	msg_type  {
-string
-BodyLength  `two words` , options1// " ++ [128512]%N ++ runes_of_ascii " emoji
-i64_ ,
-    }// " ++ [128512]%N ++ runes_of_ascii " emoji
-packet roots { u `` , @calculatedFrom( ""a	b"")match len as	msg_type{
-    // c
-    """ ++ [28040; 24687]%N ++ runes_of_ascii """
-:
-charz}, crc @calculatedFrom(
-// packet A { u8 x, }
-// packet A { u8 x, }
-""it's"" ) `a\`
-,@leftPad
-( '0' )@tag( 007	) zchar[// trailing space 
-3
-    // trailing space 
-    ] falsey ,  @calculatedFrom(// `tick` ""quote"" 'q'
-""\n""
-    )@calculatedFrom(""CRC32""// c
-)
-    // trailing space 
-    match
+falsey {
+zchar[ 255
+    ]
+As @lengthOf(BodyLength ) , match Z9_
+    as As	{ [
+0123456789, 007, ""a\\"", ""\" ++ [233]%N ++ runes_of_ascii """// 50% %s
+, ""x y"" ,3 ] : i8i8
+    ,} ,	} , f32a
+    {match leftPad as crc{	[ ""\" ++ [233]%N ++ runes_of_ascii """ , // " ++ [128512]%N ++ runes_of_ascii " emoji
+""packet""
+,
+65535 ,""`tick`"",
+""`tick`"" ,
+""a\\"" , """" ,
     //x
-    Packet as // @lengthOf(
-stringy	{ 1:
-Pad
-, ""it's"" :f32a ,
-} , @leftPad (
-' '
-)
-    match // " ++ [27880; 37322]%N ++ runes_of_ascii "
-int as	a1 { [ 0123456789 ,255]
+    ""// no comment""
+// @lengthOf(
+//	t
+]// 50% %s
+: calculatedFrom""packet""
     :
-    options1
-//x
-//x
+// c
+//
+Packet // c
+, [ //x
+4294967296 ,
+    // c
+    4294967296
+    ,//x
+""{,}""
+// " ++ [128512]%N ++ runes_of_ascii " emoji
+// `tick` ""quote"" 'q'
+]  :T [0 ,0  , """ ++ [233]%N ++ runes_of_ascii "t" ++ [233]%N ++ runes_of_ascii """ , 42 ,
+""a	b"", 7
+]: tag 3: As  , }
+, char[]
+matchKey
+    `crlf
+line`
+, // packet A { u8 x, }
 }
-    ,BodyLength
-    //
-    @calculatedFrom( """ ++ [28040; 24687]%N ++ runes_of_ascii """ ),
-float32
-    zchar
-@calculatedFrom( ""// no comment""
-)
-,	@tag( 10 ) zchar[
-    // packet A { u8 x, }
-    1  ] rootA , }
-")).
-Eval vm_compute in ("<<<M1805>>>" ++ check (runes_of_ascii "// trailing space 
-packet charz {
-    @calculatedFrom(""1"")
-    match x as tag {
-        [
-            7, 0, 65535, ""it's"", 0,
-            ""x y"", 255
-        ] : tag,
-        [""1"", 3, 007, 255, ""x y""] : pack,
-        [
-            """ ++ [233]%N ++ runes_of_ascii "t" ++ [233]%N ++ runes_of_ascii """, 7, 10, 3, 0,
-            ""a\""b""
-        ] : leftPad,
-        [65535, ""x y""] : chars,
-        [""\n"", 65535, ""a\\""] : A,
-        ""\n"" : lengthOf,
-    },
-    match string_ as i8i8 {
-        7 : msg_type,
-        // c
-        ""abc"" : tag,
-        ""a\""b"" : metadata,
-        255 : matchKey,
-        [
-            ""CRC32"", ""1"", 007, ""packet"", ""a\\"",
-            ""a\""b"", 007, 4294967296
-        ] : lengthOf,
-    },
-    uint16 pack,
-    string Pad @lengthOf(o) `say ""hi""`,
-    repeat i8 body,
-    @lengthOf(crc)
-    float64 body `// not a comment`,
-    repeat rootA {
-        int16 x_y_z `tab	here`,
-        falsey @calculatedFrom(""{,}""),
-        trueish @lengthOf(crc) `{ , }`,
-    },
-    match Pad as Header {
-        4294967296 : Header,
-        ""\n"" : msg_type,
-        ""a	b"" : x_y_z,
-    },
+,repeat zchar[
     //	t
-    Logon,
+    4294967296 ] As , rootA	T
+,
+// @lengthOf(
+// " ++ [128512]%N ++ runes_of_ascii " emoji
+@tag( 65535
+)
+    @calculatedFrom(
+""{,}"" // a // b
+)
+    /// triple
+    repeat// @lengthOf(
+i16 Z9_ `{ , }` , @calculatedFrom( ""{,}"") len {
+match// trailing space 
+u128 //
+as
+zchar {[	00 , 4294967296
+    ] // 50% %s
+:  charz
+,""a\\""
+    :	i8i8  ,""" ++ [233]%N ++ runes_of_ascii "t" ++ [233]%N ++ runes_of_ascii """ :
+    x_y_z,65535 :uint8x
+,
+}, repeat leftPad { f32 u128	@lengthOf(
+As ) ,
+    body `" ++ [28040; 24687; 31867; 22411]%N ++ runes_of_ascii "` , rootA// @lengthOf(
+Pad
+,} ,
+char[ 00 ] msg_type `say ""hi""`// `tick` ""quote"" 'q'
+,
+    /// triple
+    zchar[ // @lengthOf(
+0123456789	] falsey,
+    // " ++ [27880; 37322]%N ++ runes_of_ascii "
+    } ,
+    repeat int
+`a\`
+, } root
+packet f32a { int8
+    Header ``,
+    }
+
+")).
+Eval vm_compute in ("<<<M1579>>>" ++ check (runes_of_ascii "packet x {
+}
+
+options {
+    Packet = string
+    Packet = ' '
+    zchar = false;
+    matchKey = false
+}
+
+packet f32a {
+    int64 options1 @calculatedFrom(""packet"") `// not a comment`,
+    Z9_ {
+        charz {
+            match BodyLength as trueish {
+                ""\" ++ [233]%N ++ runes_of_ascii """ : charz,
+                65535 : roots,
+                [4294967296, ""a\""b"", ""abc""] : f32a,
+                ""\" ++ [233]%N ++ runes_of_ascii """ : int,
+                // packet A { u8 x, }
+                ""x y"" : u8x,
+            },
+            repeat int8 u,
+            repeat _x {
+                msg_type `100% of %d`,
+                metadata `crlf
+                                line`,
+                f32 roots,
+                char[] f32a @lengthOf(Pad),// c
+            },
+        },
+    },
+    match T as calculatedFrom {
+        [0, """ ++ [128512]%N ++ runes_of_ascii """] : Pad,
+        // packet A { u8 x, }
+        [
+            """", ""x y"", """ ++ [233]%N ++ runes_of_ascii "t" ++ [233]%N ++ runes_of_ascii """, ""a\""b"", 4294967296,
+            """ ++ [28040; 24687]%N ++ runes_of_ascii """
+        ] : o,
+        [42] : float,
+    },
+    match zchar as _x {
+        ""`tick`"" : packetx,
+    },
+    // 50% %s
+    repeat As {
+        int @lengthOf(msg_type),
+        i64 roots `line1
+                line2`,// c
+        repeat u16 Packet `" ++ [233]%N ++ runes_of_ascii "`,
+        f64 charz,
+    },
+    int32 i8i8 `say ""hi""`,
 }")).
-Eval vm_compute in ("<<<M1309>>>" ++ check (runes_of_ascii "// top
+Eval vm_compute in ("<<<M1320>>>" ++ check (runes_of_ascii "// top
 packet // c0a
   // c0b
-A { // c2
-u8 // c3a
-  // c3b
-a , // c5
+A { // c2a
+  // c2b
+u8 // c3
+a // c4a
+  // c4b
+, // c5
 } // c6a
   // c6b
-packet // c7a
-  // c7b
-B {
+packet // c7
+B
+    // c8
+{
     // c9
 u16 b // c11
 , } // c13a
   // c13b
-packet // c14
-C
-    // c15
-{
-    // c16
-u32
-    // c17
-c // c18
-, // c19a
-  // c19b
-}
+packet // c14a
+  // c14b
+C // c15
+{ // c16a
+  // c16b
+u32 c // c18
+, }
     // c20
-root packet // c22a
-  // c22b
-M // c23
-{ u16 Kc
-    // c26
+root // c21a
+  // c21b
+packet M
+    // c23
+{ // c24
+u16 // c25
+Kc , // c27a
+  // c27b
+u16 // c28
+Kb // c29
+, // c30a
+  // c30b
+u16 Ka // c32a
+  // c32b
 ,
-    // c27
-u16 // c28a
-  // c28b
-Kb , // c30
-u16 Ka
-    // c32
-, match // c34a
-  // c34b
-Kc // c35
-as X
-    // c37
-{
-    // c38
-9 // c39
-:
-    // c40
-A
-    // c41
-, 10 :
-    // c44
-B
-    // c45
+    // c33
+match Kc
+    // c35
+as
+    // c36
+X // c37
+{ 9
+    // c39
+: A // c41
+, 10 // c43
+: // c44
+B // c45
 ,
     // c46
-} , match
-    // c49
-Kb // c50
-as // c51a
-  // c51b
-Y // c52
-{ 2 // c54a
-  // c54b
-:
-    // c55
-C , // c57
-1 // c58
-: A , // c61a
-  // c61b
-} // c62
+} , // c48a
+  // c48b
+match // c49
+Kb // c50a
+  // c50b
+as // c51
+Y // c52a
+  // c52b
+{ 2 // c54
+: C , // c57a
+  // c57b
+1 // c58a
+  // c58b
+: // c59a
+  // c59b
+A ,
+    // c61
+}
+    // c62
 , // c63a
   // c63b
 match
     // c64
-Ka as // c66
-Z // c67
+Ka // c65
+as Z // c67a
+  // c67b
 {
     // c68
-1 // c69a
-  // c69b
-: B // c71a
+1 // c69
+: // c70
+B // c71a
   // c71b
-, // c72
-} // c73a
-  // c73b
-, // c74
+, // c72a
+  // c72b
+} // c73
+, // c74a
+  // c74b
 A // c75a
   // c75b
 , // c76
-B
-    // c77
-,
-    // c78
-C , // c80
-} ")).
-Eval vm_compute in ("<<<M1770>>>" ++ check (runes_of_ascii "
-
-  packet
-charz  {	//	t
-      repeat
-
-    i64_,
-
-    trueish	{ repeat _x ,
-repeatCount
-
-,  repeat
-	u16
-    matchKey`
-`
-	,
-    // " ++ [128512]%N ++ runes_of_ascii " emoji
-	// a // b
-
-	matchKey
-
-    @calculatedFrom(
-    ""a\""b""
-)	`it's`
-,
-	}
-
-    ,  @tag(	007
-)@calculatedFrom( ""a\\""	) 
-@tag(  3// @lengthOf(
-  )
-	f32 
-f32a@lengthOf(
-    asx  ) `crlf
-line`// packet A { u8 x, }
-  ,	repeat i8
-string_	, @lengthOf(
-	// @lengthOf(
-Logon	)  @lengthOf( x_y_z ) 
-@lengthOf( zchar
-    )
-	repeat  char[ 65535
-	]
-    Foo `" ++ [233]%N ++ runes_of_ascii "`
-	,@calculatedFrom(	//
-	""abc""
-	)
-
-trueish	@lengthOf(A
-    ) 
-    // " ++ [27880; 37322]%N ++ runes_of_ascii "
-// a // b
-  ,
-    char[ 0
-    ]
-
-    float
-    ,Packet
-
-    @calculatedFrom(	""a	b"" ),
-	}
-	MetaData 
-Pad {
-
-    char[ 00
-	]leftPad
-,	u8
-
-rootA`
-` 
-, 
-    //
-  	// " ++ [128512]%N ++ runes_of_ascii " emoji
-
-	int32
-a1 `say ""hi""`
-, Z9_ float,  //x
-i32
-Pad
-
-,
-    }
-
+B // c77
+, // c78a
+  // c78b
+C , // c80a
+  // c80b
+} // c81
 ")).
-Eval vm_compute in ("<<<M1576>>>" ++ check (runes_of_ascii "MetaData lengthOf {
+Eval vm_compute in ("<<<M1731>>>" ++ check (runes_of_ascii "MetaData len {
+    float roots `u8 x,`,
+    u32 int `" ++ [233]%N ++ runes_of_ascii "`,
 }
 
-MetaData falsey {
-    // " ++ [27880; 37322]%N ++ runes_of_ascii "
-    falsey i64_ `
-    `,
-    zchar[255] u `two words`,
-    BodyLength int,
-    matchKey i8i8 `crlf
-    line`,
-    uint8x asx,
-    char[] options1,
-}
-
-packet asx {
-    @lengthOf(o)
-    @calculatedFrom(""\n"")
-    char[] lengthOf `two words`,
-    BodyLength `" ++ [233]%N ++ runes_of_ascii "`,
-    repeat u8x len `doc`,
-    int @calculatedFrom(""a\\"") `line1
-    line2`,
-    @lengthOf(MetaDataX)
-    Packet packetx,
-    a1 {
-        match Logon as len {
-            4294967296 : matchKey,
-            [
-                1, 10, 10, ""{,}"", """ ++ [233]%N ++ runes_of_ascii "t" ++ [233]%N ++ runes_of_ascii """,
-                0123456789
-            ] : leftPad,
-            3 : msg_type,
-            //	t
-            //x
-            1 : As,
-        },
-        chars,
+root packet x {
+    @tag(1)
+    repeat charz,
+    Pad @calculatedFrom(""" ++ [233]%N ++ runes_of_ascii "t" ++ [233]%N ++ runes_of_ascii """),
+    match int as u8x {
+        //x
+        0 : leftPad,
+        [1, 0123456789, 10] : uint8x,
     },
+    @leftPad()
+    /// triple
+    repeat u128 {
+        f64 _x `two words`,
+        T @calculatedFrom(""\n"") `u8 x,`,
+        match A as crc {
+            3 : leftPad,
+            """ ++ [128512]%N ++ runes_of_ascii """ : falsey,
+            [
+                """ ++ [233]%N ++ runes_of_ascii "t" ++ [233]%N ++ runes_of_ascii """, 4294967296, """ ++ [28040; 24687]%N ++ runes_of_ascii """, ""a	b"", 00,
+                """ ++ [233]%N ++ runes_of_ascii "t" ++ [233]%N ++ runes_of_ascii """
+            ] : rootA,
+            ""1"" : MetaDataX,
+        },
+        f32 o @calculatedFrom(""// no comment"") `// not a comment`,// a // b
+    },
+    chars @calculatedFrom(""{,}""),
+    @rightPad(' ')
+    @tag(0)
+    repeat BodyLength ``,
+    body,
+}
+
+MetaData T {
+    len i8i8,
+}
+
+options {
+    f32a = true
+}
+
+packet falsey {
 }")).
-Eval vm_compute in ("<<<M1508>>>" ++ check (runes_of_ascii "// top
-		root // c0
-    packet  // c1
-    _x 
-	    // c2
-  { match 
-// c4
-    Foo // c5
-  as  // c6a
-	// c6b
-    	Z9_	{ 
-  // c8
+Eval vm_compute in ("<<<M1920>>>" ++ check (runes_of_ascii "MetaData BodyLength {
+}
 
-	""a	b"" 	 // c9a
-	// c9b
-: 	 // c10
+packet x_y_z {
+    @lengthOf(roots)
+    A {
+        // " ++ [128512]%N ++ runes_of_ascii " emoji
+        repeat zchar[0123456789] Z9_ `a\`,
+    },
+}
 
-Pad 	 // c11
+options {
+    Pad = ""x y"";// trailing space 
+    trueish = true
+    body = 3;
+    matchKey = true;
+    i64_ = char[];
+}
 
-, 
-    // c12
-
-	}
-	, // c14
-
-	repeat // c15a
-// c15b
-
-x  `line1
-line2`  
-      // c17
-    ,	// c18
-    @rightPad// c19a
-	// c19b
-	(
-
-    // c20
-    ' ' 	 // c21
-) // c22
-	@calculatedFrom(""a\\"" 
-// c24
-
-	)  // c25a
-  // c25b
-	metadata MetaDataX 
-	    // c27
-      ,
+packet Packet {
+    char[] float @calculatedFrom(""`tick`""),
+    char[] charz @calculatedFrom(""abc""),
+    match As as asx {
+        [
+            """ ++ [28040; 24687]%N ++ runes_of_ascii """, ""`tick`"", ""{,}"", ""{,}"", ""a	b"",
+            1, ""\" ++ [233]%N ++ runes_of_ascii """
+        ] : rootA,
+        255 : asx,
+        42 : a1,
+        42 : x_y_z,
+        """" : msg_type,
+        7 : f32a,
+    },
+    @leftPad('0')
+    repeatCount crc `// not a comment`,
+    @lengthOf(MetaDataX)
+    float64 falsey @calculatedFrom(""\" ++ [233]%N ++ runes_of_ascii """) `" ++ [233]%N ++ runes_of_ascii "`,
+}")).
+Eval vm_compute in ("<<<M161>>>" ++ check (runes_of_ascii "root/// triple
+packet options1
+    {// " ++ [27880; 37322]%N ++ runes_of_ascii "
 @tag(
-// c29
-  0
-
-    )// c31
-Logon
-    int
-    // c33
-    `` 
-
-// c34
-  , 
-	// c35
-    }// c36
-  options // c37
-{ 
-
-    // c38
-  T // c39
-
-=  // c40a
-		// c40b
-  '\x00'  }  // c42a
-
-// c42b
-")).
-Eval vm_compute in ("<<<M305>>>" ++ check (runes_of_ascii "packet
-pack{ u8 x ,
-char[
-    255 ]trueish
-@calculatedFrom(
-""// no comment"" ) `tab	here`,	@lengthOf( asx) repeat //
-zchar[
+// c
+// 50% %s
 0
-] stringy `
-`, @leftPad( '0' ) @calculatedFrom( // trailing space 
-""abc"" )
-    @calculatedFrom( ""it's""
-) char[] packetx@calculatedFrom( ""a	b"" ) `doc` , repeat string len
-    `two words`
-, uint16 matchKey
-    @lengthOf(
-    asx ) ,zchar[ 0 ]
-x `it's` // trailing space 
-, }
-    packet packetx {body  , string trueish `" ++ [233]%N ++ runes_of_ascii "` , @tag(255 )
+    // `tick` ""quote"" 'q'
+    )
+    len leftPad	, @calculatedFrom(
+    """ ++ [233]%N ++ runes_of_ascii "t" ++ [233]%N ++ runes_of_ascii """ )
+    stringy a1 `` ,	@rightPad ( )a1	`" ++ [28040; 24687; 31867; 22411]%N ++ runes_of_ascii "`
+// " ++ [27880; 37322]%N ++ runes_of_ascii "
+// a // b
+, char Header @lengthOf( x
+) `a\` ,uint8x
+Z9_ `it's` ,
+match
+roots as
+    o { [ ""{,}"" , ""CRC32"" // `tick` ""quote"" 'q'
+] : o ,
+    ""CRC32"": Pad ,
+} , // 50% %s
 @tag(
-3
-// packet A { u8 x, }
-//	t
-) @calculatedFrom(
-    ""\n"" ) repeat f64 roots// trailing space 
-`" ++ [233]%N ++ runes_of_ascii "`	, /// triple
-} 	 ")).
-Eval vm_compute in ("<<<M1300>>>" ++ check (runes_of_ascii "// top
-packet // c0
-A { u8
-    // c3
-a , // c5a
-  // c5b
-} // c6
-packet
-    // c7
-B { // c9a
-  // c9b
-u16 // c10a
-  // c10b
-b // c11
-, // c12
-}
-    // c13
-root packet // c15a
-  // c15b
-P { // c17
-u8 // c18
-K // c19
-, // c20
-match // c21
-K // c22
-as // c23
-M // c24a
-  // c24b
-{
-    // c25
-[ // c26
-1
-    // c27
-,
-    // c28
-2 // c29a
-  // c29b
-] // c30a
-  // c30b
-: // c31a
-  // c31b
-A // c32a
-  // c32b
-, 3
-    // c34
-: // c35
-B // c36a
-  // c36b
-, 7 // c38
-: // c39a
-  // c39b
-A // c40
-, // c41
-} ,
-    // c43
-}
-    // c44
-")).
-Eval vm_compute in ("<<<M1902>>>" ++ check (runes_of_ascii "options
-    {	// c1a
-
-  // c1b
-	LittleEndian  
-  // c2
-  = 	 // c3
-	true  // c4
-
-  ; }	// c6a
-		// c6b
-  packet
-
-    B
-	{  u8	// c10a
-// c10b
-a 
-      // c11
-  , // c12a
-// c12b
-	string	// c13
-s  // c14
-
-,
-	}	// c16
-  root // c17a
-    // c17b
-      packet
-
-// c18
-    P  // c19
-    {
-
-u16 // c21
-	L @lengthOf(
-    B
-)// c25a
-	// c25b
-
-,  // c26a
-
-// c26b
-B  // c27a
-	// c27b
-, 
-  // c28
-		u8 
-  // c29
-    t 	 // c30
-		, // c31
-
-  }	// c32a
-  // c32b")).
-Eval vm_compute in ("<<<M1192>>>" ++ check (runes_of_ascii "// top
-MetaData
-    // c0
-uint8x
-    // c1
-{
-    // c2
-char[]
-    // c3
-f32a
-    // c4
-`// not a comment`
-    // c5
-,
-    // c6
-float32
-    // c7
-roots
-    // c8
-,
-    // c9
-char[
-    // c10
-7
-    // c11
-]
-    // c12
-u8x
-    // c13
-,
-    // c14
-zchar[
-    // c15
-10
-    // c16
-]
-    // c17
-f32a
-    // c18
-,
-    // c19
-u64
-    // c20
-pack
-    // c21
-,
-    // c22
-u16
-    // c23
-pack
-    // c24
-,
-    // c25
-}
-    // c26
-")).
-Eval vm_compute in ("<<<M76>>>" ++ check (runes_of_ascii "packet rootA { repeat uint16 stringy `" ++ [233]%N ++ runes_of_ascii "`
-,body
-@lengthOf( stringy ) , int32 matchKey // " ++ [27880; 37322]%N ++ runes_of_ascii "
-,
-    @lengthOf(roots)@calculatedFrom( ""a\""b""
-) @leftPad(' ') i64
-    leftPad
-@lengthOf( repeatCount )
-`u8 x,` , //	t
-f64 len
-    @lengthOf( BodyLength// trailing space 
-) `// not a comment` , @rightPad
-(
-)
-    @leftPad ( '0')repeat
-string len
-, // c
-char[] chars `two words`	, } //	t")).
-Eval vm_compute in ("<<<M1744>>>" ++ check (runes_of_ascii "  packet
-
-crc	{match 
-trueish as 
-len { 42 
-: 
-uint8x
-, // " ++ [128512]%N ++ runes_of_ascii " emoji
-    ""1"" 
-: asx
-
-, 3
-:
-
-body	[ ""1""  ,
-	0123456789]
-
-    :	u ""packet"" :
-o
-,
-}	, 
-} MetaData
-tag{string
-	o `line1
-line2`
-    ,  char[]	//
-Header  `{ , }` 	 // c
-	,
-uint8x Z9_,
-}MetaData tag {
-    i8
-len,
-	}options  //x
-  {  
-  // `tick` ""quote"" 'q'
-    	/// triple
-	x
-=
-10
-
-; }")).
-Eval vm_compute in ("<<<M1773>>>" ++ check (runes_of_ascii "packet float {
-    // c2
-    @rightPad()
-    // c5a
-    // c5b
-    rootA @lengthOf(trueish),
-    // c10
-    stringy @lengthOf(matchKey),// c15a
-    // c15b
-    char[4294967296] pack @lengthOf(uint8x),
-    // c23
-}// c24
-
-root packet trueish {
-    // c28
-    repeat uint64 u128 `line1
-        line2`,
-    // c33
-}
-// c34")).
-Eval vm_compute in ("<<<M35>>>" ++ check (runes_of_ascii "  packet Header
-{ @calculatedFrom( // a // b
-""a	b"" )
-char[
-    255] falsey `tab	here`,int8
-    // " ++ [27880; 37322]%N ++ runes_of_ascii "
-    u
-`doc` , float32 lengthOf
-    @calculatedFrom(
-""a	b""  )
+    00) zchar[ 4294967296
+]	x , @lengthOf( repeatCount
+) uint16 // `tick` ""quote"" 'q'
+T ,  @lengthOf( u128 ) repeat
+i64_ { repeat	u8 MetaDataX // `tick` ""quote"" 'q'
+`" ++ [233]%N ++ runes_of_ascii "` ,
+    repeat
     // a // b
-    , @rightPad (
-' '  ) @tag( 3
-) float64 asx
+    u8x
+    // c
+    `two words`
     ,
-int8 metadata @lengthOf(zchar )// a // b
-,Pad f32a , }")).
-Eval vm_compute in ("<<<M1291>>>" ++ check (runes_of_ascii "// top
-root
-    // c0
-packet
-    // c1
-P // c2a
-  // c2b
-{ // c3
-u8 // c4
-s_u8 // c5a
-  // c5b
-, // c6
-repeat u8 // c8a
-  // c8b
-r_u8 // c9a
-  // c9b
-,
-    // c10
-u16 // c11a
+}  ,
+} // packet A { u8 x, }")).
+Eval vm_compute in ("<<<M1789>>>" ++ check (runes_of_ascii "  packet
+x_y_z
+    {repeat
+asx{
+
+    falsey@lengthOf(	u ) `100% of %d`
+, repeat
+
+matchKey { 
+x_y_z
+	@calculatedFrom( ""a\\"" 
+        // trailing space 
+  	// trailing space 
+)
+
+, i64 
+// 50% %s
+  //
+		calculatedFrom  @calculatedFrom(
+""// no comment"" )`{ , }`  ,
+} 	 // 50% %s
+	,
+// c
+  //	t
+
+  char[  // 50% %s
+    007]Foo	@calculatedFrom(
+
+    ""abc""
+
+    )  ,
+
+}
+,repeat
+uint32  Pad
+    ,
+
+repeat Logon
+
+{
+Logon
+
+{
+	char[] packetx  @calculatedFrom( 
+
+// " ++ [128512]%N ++ runes_of_ascii " emoji
+	  // `tick` ""quote"" 'q'
+
+  ""it's"" )	`
+`	,	} ,
+    i8
+
+len
+    ,	asx	, 
+} ,
+
+    }
+")).
+Eval vm_compute in ("<<<M1568>>>" ++ check (runes_of_ascii "MetaData i8i8 {
+    char[00] msg_type `say ""hi""`,
+}// " ++ [128512]%N ++ runes_of_ascii " emoji
+
+MetaData charz {
+    zchar[0] options1,
+}
+
+packet MetaDataX {
+    // packet A { u8 x, }
+    Header u8x `// not a comment`,
+    x rootA,
+    @lengthOf(falsey)
+    @lengthOf(i8i8)
+    match MetaDataX as stringy {
+        [""" ++ [128512]%N ++ runes_of_ascii """, ""a\""b""] : i64_,
+    },
+}
+
+MetaData msg_type {
+    string zchar `doc`,
+    //
+}
+
+MetaData leftPad {
+    uint8 x `crlf
+        line`,
+    i32 msg_type `// not a comment`,
+    char[255] leftPad,// a // b
+    char[] u,//	t
+}")).
+Eval vm_compute in ("<<<M1730>>>" ++ check (runes_of_ascii "options {
+    LittleEndian = true;
+    ArrayPrefixLenType = u32;
+    FixedStringPadChar = ' ';
+}
+
+packet Order {
+    char[5] seqNo,
+    uint8 Px,
+}
+
+packet Logon {
+    @rightPad('\x00')
+    char[8] Flags,
+    zchar[3] count,
+    repeat Order,
+}
+
+root packet Party {
+    repeat Logon,
+    repeat char[1] x,
+    u32 price,
+    u32 Side2 @lengthOf(Body),
+    match price as Body {
+        49 : Order,
+        196 : Logon,
+    },
+    u32 f1 @calculatedFrom(""CR\
+    C32""),
+}")).
+Eval vm_compute in ("<<<M1623>>>" ++ check (runes_of_ascii "options {
+    ArrayPrefixLenType = u64;
+    FixedStringPadFromLeft = true;
+    FixedStringPadChar = '0';
+}
+
+packet Order {
+}
+
+root packet Leg {
+    char[] Ref,
+    repeat Order,
+    f32 Acct,
+    @leftPad('0')
+    char[10] venue,
+    @rightPad('0')
+    char[3] seqNo,
+    repeat u64 Px,
+    u8 Flags,
+    u32 lastPx @lengthOf(Body),
+    match Flags as Body {
+        185 : Order,
+    },
+    u16 sym @calculatedFrom(""CR\
+    C32""),
+}")).
+Eval vm_compute in ("<<<M1340>>>" ++ check (runes_of_ascii "packet Frame {
+    u8 HK,
+    u8 BK,
+    u8 TK,
+    match HK as Hdr {
+        1 : HdrA,
+        2 : HdrB,
+    },
+    match BK as Body {
+        1 : BodyA,
+        2 : BodyB,
+    },
+    match TK as Trl {
+        1 : TrlA,
+    },
+}
+packet HdrA {
+    u8 a,
+}
+packet HdrB {
+    u16 b,
+}
+packet BodyA {
+    u32 c,
+}
+packet BodyB {
+    u64 d,
+}
+packet TrlA {
+    u8 e,
+}
+root packet Msg {
+    Frame,
+    u8 x,
+}
+")).
+Eval vm_compute in ("<<<M1276>>>" ++ check (runes_of_ascii "// top
+packet // c0
+B // c1a
+  // c1b
+{ u8
+    // c3
+a ,
+    // c5
+} // c6
+root packet P // c9
+{ u8 // c11a
   // c11b
-b_len // c12a
+K // c12a
   // c12b
 , // c13a
   // c13b
-} // c14a
-  // c14b
-")).
-Eval vm_compute in ("<<<M82>>>" ++ check (runes_of_ascii "packet metadata
-{int32 calculatedFrom , } options {} options { u128 = '\x00'	;
-    string_ =	""abc""
-    ; }root
-packet i8i8
-    {  @rightPad
-( '\x00' ) repeat	metadata { string_,
-    tag@lengthOf( falsey ) ,
-} ,//x
-}")).
-Eval vm_compute in ("<<<M311>>>" ++ check (runes_of_ascii "MetaData
-falsey { Header falsey
-`
-` , string Foo `" ++ [28040; 24687; 31867; 22411]%N ++ runes_of_ascii "`
-    // `tick` ""quote"" 'q'
-    ,falsey repeatCount , i8
-u , }
-packet A	{ match _x as T { 007: lengthOf// `tick` ""quote"" 'q'
-}, } 	 ")).
-Eval vm_compute in ("<<<M191>>>" ++ check (runes_of_ascii "options
-{ Logon
-=char[	00
-]
-;
-zchar
-    = false Logon =	i8
-    ;}options { asx = '0' int = ""\" ++ [233]%N ++ runes_of_ascii """  calculatedFrom= '\x00'// packet A { u8 x, }
-; // `tick` ""quote"" 'q'
-}
-")).
-Eval vm_compute in ("<<<M481>>>" ++ check (runes_of_ascii "packet uint8x
-{ match pack
-    as msg_type	{
-    0123456789 :	float
-}
-,
-} packet //	t
-a1
-    { } options options {packetx
-    = '\x00'	; u128= ""a	b""  ; }
-")).
-Eval vm_compute in ("<<<M413>>>" ++ check (runes_of_ascii "packet uint8x
-{ match float32
-    as msg_type	{
-    0123456789 :	float
-}
-,
-} packet //	t
-a1
-    { } options {packetx
-    = '\x00'	; u128= ""a	b""  ; }
-")).
-Eval vm_compute in ("<<<M701>>>" ++ check (runes_of_ascii "// @lengthOf(
-packet i8i8 { u128 o , }
-options { MetaDataX = true;
-    BodyLength =""packet"" ""packet"" x_y_z= 007
-crc //x
-= ""abc"" ;
-    msg_type =
-i16 }")).
-Eval vm_compute in ("<<<M462>>>" ++ check (runes_of_ascii "packet uint8x
-{ match pack
-    as msg_type	{
-    0123456789 :	float
-}
-,
-} a1 //	t
-packet
-    { } options {packetx
-    = '\x00'	; u128= ""a	b""  ; }
-")).
-Eval vm_compute in ("<<<M525>>>" ++ check (runes_of_ascii "packet uint8x
-{ match pack
-    as msg_type	{
-    0123456789 :	float
-}
-,
-} packet //	t
-a1
-    { } options {packetx
-    = '\x00'	; u128= ""a	b""   }
-")).
-Eval vm_compute in ("<<<M398>>>" ++ check (runes_of_ascii "packet [
-{ match pack
-    as msg_type	{
-    0123456789 :	float
-}
-,
-} packet //	t
-a1
-    { } options {packetx
-    = '\x00'	; u128= ""a	b""  ; }
-")).
-Eval vm_compute in ("<<<M480>>>" ++ check (runes_of_ascii "packet uint8x
-{ match pack
-    as msg_type	{
-    0123456789 :	float
-}
-,
-} packet //	t
-a1
-    { }  {packetx
-    = '\x00'	; u128= ""a	b""  ; }
-")).
-Eval vm_compute in ("<<<M430>>>" ++ check (runes_of_ascii "packet uint8x
-{ match pack
-    as msg_type	{
-     :	float
-}
-,
-} packet //	t
-a1
-    { } options {packetx
-    = '\x00'	; u128= ""a	b""  ; }
-")).
-Eval vm_compute in ("<<<M1789>>>" ++ check (runes_of_ascii "  //
-  packet metadata
+match
+    // c14
+K
+    // c15
+as
+    // c16
+Body // c17
 {
+    // c18
+1 // c19
+: B // c21
+,
+    // c22
+} , u16 // c25
+L
+    // c26
+@lengthOf( // c27a
+  // c27b
+Body
+    // c28
+)
+    // c29
+, // c30a
+  // c30b
+} ")).
+Eval vm_compute in ("<<<M1835>>>" ++ check (runes_of_ascii "packet Header {
+    @lengthOf(MetaDataX)
+    char[] Z9_ @calculatedFrom(""CRC32"") `u8 x,`,
+}
 
-    }MetaData
+packet a1 {
+    @lengthOf(As)
+    // c
+    // trailing space 
+    repeat rootA Header,
+    @tag(255)
+    //
+    // " ++ [128512]%N ++ runes_of_ascii " emoji
+    zchar[255] A @calculatedFrom(""{,}"") `{ , }`,
+    @lengthOf(Header)
+    uint8 leftPad @calculatedFrom(""" ++ [233]%N ++ runes_of_ascii "t" ++ [233]%N ++ runes_of_ascii """),// " ++ [128512]%N ++ runes_of_ascii " emoji
+}")).
+Eval vm_compute in ("<<<M1709>>>" ++ check (runes_of_ascii "// top
+packet A {
+    // c2
+    u8 a,// c5
+}// c6
 
-    chars
-	    //x
-  //	t
-  { char[
-42
+packet B {
+    // c9
+    u16 b,
+}
 
-    ] leftPad`crlf
-line`
+root packet P {
+    u8 K1,// c20
+    u8 K2,
+    // c23
+    match K1 as M1 {
+        // c28a
+        // c28b
+        1 : A,
+    },
+    // c34
+    match K2 as M2 {
+        1 : B,
+        // c43
+    },// c45
+}
+// c46")).
+Eval vm_compute in ("<<<M1454>>>" ++ check (runes_of_ascii "// c
+packet BodyLength {
+    @tag(42)
+    Header tag `u8 x,`,
+}
+
+options {
+}
+
+packet string_ {
+    float32 rootA,
+    uint8 MetaDataX `crlf
+        line`,
+    charz,
+    @tag(4294967296)
+    @rightPad('\x00')
+    @tag(7)
+    // c
+    u32 u128 @calculatedFrom(""\" ++ [233]%N ++ runes_of_ascii """),
+}")).
+Eval vm_compute in ("<<<M1823>>>" ++ check (runes_of_ascii "// top
+MetaData msg_type {
+    // c2
+    int32 As `crlf
+    line`,// c6
+    MetaDataX x `a\`,// c10
+    int8 _x,// c13
+    char[] As `u8 x,`,// c17
+    zchar[3] uint8x,// c22
+    As Foo,// c25
+}// c26
+
+root packet repeatCount {
+    // c30
+}// c31")).
+Eval vm_compute in ("<<<M427>>>" ++ check (runes_of_ascii "packet
+    asx { @calculatedFrom(
+""""  ) @tag( 255 ) )repeat
+// packet A { u8 x, }
+// trailing space 
+int16 u8x
+,
+@tag(
+    //
+    007 )
+    @tag( 0
+    /// triple
+    ) @tag( 1) u
+    @lengthOf( T ),
+// `tick` ""quote"" 'q'
+//x
+} // " ++ [128512]%N ++ runes_of_ascii " emoji")).
+Eval vm_compute in ("<<<M403>>>" ++ check (runes_of_ascii "packet
+    asx { """"
+@calculatedFrom(  ) @tag( 255 )repeat
+// packet A { u8 x, }
+// trailing space 
+int16 u8x
+,
+@tag(
+    //
+    007 )
+    @tag( 0
+    /// triple
+    ) @tag( 1) u
+    @lengthOf( T ),
+// `tick` ""quote"" 'q'
+//x
+} // " ++ [128512]%N ++ runes_of_ascii " emoji")).
+Eval vm_compute in ("<<<M1285>>>" ++ check (runes_of_ascii "// top
+options // c0a
+  // c0b
+{
+    // c1
+FixedStringPadFromLeft // c2a
+  // c2b
+= // c3a
+  // c3b
+true ; // c5
+}
+    // c6
+root // c7
+packet
+    // c8
+P // c9a
+  // c9b
+{ char[ // c11
+4 // c12
+]
+    // c13
+z , // c15
+} // c16a
+  // c16b
+")).
+Eval vm_compute in ("<<<M164>>>" ++ check (runes_of_ascii "options {falsey = 42 }  options { A
+= 0123456789 ; options1 =	""// no comment""o = ""// no comment"" ; u8x =
+// 50% %s
+// 50% %s
+true ;
+} root packet Z9_ // " ++ [128512]%N ++ runes_of_ascii " emoji
+{	} root packet
+o
+    {
+@tag(65535 )repeat f32 Logon `100% of %d` ,}
+")).
+Eval vm_compute in ("<<<M1261>>>" ++ check (runes_of_ascii "// top
+packet // c0
+Inner {
+    // c2
+u8
+    // c3
+a // c4a
+  // c4b
+,
+    // c5
+}
+    // c6
+root
+    // c7
+packet
+    // c8
+P { // c10a
+  // c10b
+Inner
+    // c11
+ref_obj , u8 // c14a
+  // c14b
+x // c15
+, } // c17
+")).
+Eval vm_compute in ("<<<M229>>>" ++ check (runes_of_ascii "options {
+    }packet u128 // 50% %s
+{@tag(
+// `tick` ""quote"" 'q'
+// " ++ [27880; 37322]%N ++ runes_of_ascii "
+255 ) @tag( // `tick` ""quote"" 'q'
+0
+    )  Packet , } packet u8x { o, }
+packet  As { repeat
+    msg_type Header , }
+")).
+Eval vm_compute in ("<<<M592>>>" ++ check (runes_of_ascii "MetaData u
+    { } MetaData o
+{ float uint8x
+`100% of %d` `100% of %d` ,repeatCount u8x, string_ leftPad
+, i32
+    Foo , int64 x `two words` , calculatedFrom
+stringy `a\` ,
+}
+")).
+Eval vm_compute in ("<<<M677>>>" ++ check (runes_of_ascii "MetaData u
+    { } MetaData o
+{ float uint8x
+`100% of %d` ,repeatCount u8x, string_ leftPad
+, i32
+    Foo , int64 x `two words` , calculatedFrom
+stringy `a\` `a\` ,
+}
+")).
+Eval vm_compute in ("<<<M682>>>" ++ check (runes_of_ascii "MetaData u
+    { } MetaData o
+{ float uint8x
+`100% of %d` ,repeatCount u8x, string_ leftPad
+, i32
+    Foo , int64 x `two words` , calculatedFrom
+stringy `a\` , ,
+}
+")).
+Eval vm_compute in ("<<<M588>>>" ++ check (runes_of_ascii "MetaData u
+    { } MetaData o
+{ float `100% of %d`
+uint8x ,repeatCount u8x, string_ leftPad
+, i32
+    Foo , int64 x `two words` , calculatedFrom
+stringy `a\` ,
+}
+")).
+Eval vm_compute in ("<<<M611>>>" ++ check (runes_of_ascii "MetaData u
+    { } MetaData o
+{ float uint8x
+`100% of %d` ,repeatCount u8x string_ leftPad
+, i32
+    Foo , int64 x `two words` , calculatedFrom
+stringy `a\` ,
+}
+")).
+Eval vm_compute in ("<<<M646>>>" ++ check (runes_of_ascii "MetaData u
+    { } MetaData o
+{ float uint8x
+`100% of %d` ,repeatCount u8x, string_ leftPad
+, i32
+    Foo ,  x `two words` , calculatedFrom
+stringy `a\` ,
+}
+")).
+Eval vm_compute in ("<<<M1833>>>" ++ check (runes_of_ascii "
+
+  options  { 
+LittleEndian
+	=	true 
+;
+    }
+
+packet 
+B {
+u8
+
+a,
+string
+s  ,
+	}root
+
+    packet
+    P
+	{
+u16
+L@lengthOf(	B)
+,
+
+    B,u8
+	t 
+,
+	}
+
+")).
+Eval vm_compute in ("<<<M1542>>>" ++ check (runes_of_ascii "  options {	} options
+	{
+    MetaDataX
+	=char
+;
+
+    }
+// c
+  	MetaData
+Pad	{
+i8  metadata,
+string
+stringy ,int8
+
+    As
+`{ , }` , }
+")).
+Eval vm_compute in ("<<<M1840>>>" ++ check (runes_of_ascii "options {
+    LittleEndian = true;
+}
+
+packet B {
+    u8 a,
+    string s,
+}
+
+root packet P {
+    u16 L @lengthOf(B),
+    B,
+    u8 t,
+}")).
+Eval vm_compute in ("<<<M1854>>>" ++ check (runes_of_ascii "options {
+}// c
+
+options {
+    MetaDataX = char;
+}
+
+MetaData Pad {
+    i8 metadata,
+    string stringy,
+    int8 As `{ , }`,
+}")).
+Eval vm_compute in ("<<<M1629>>>" ++ check (runes_of_ascii "MetaData
+rootA
+{
+uint8
+	msg_type ,zchar[ 
+    //
+    42
+    ]
+    As
 
     ,
 
-    }
+    T
+	int
+	,
 
+    }// a // b
 ")).
-Eval vm_compute in ("<<<M1477>>>" ++ check (runes_of_ascii "
-MetaData
-    uint8x {char[
-
-007 ]leftPad,
-
-    Pad 
-T	, u64 BodyLength
-,char[]
-int , float
-	Z9_,
-
-float32 metadata
-
-    ,}
-")).
-Eval vm_compute in ("<<<M1589>>>" ++ check (runes_of_ascii "packet B {
-    u8 a,
-}
-
-root packet P {
-    u8 K,
-    u8 L @lengthOf(Body),
-    match K as Body {
-        1 : B,
-    },
+Eval vm_compute in ("<<<M1219>>>" ++ check (runes_of_ascii "options { } options { MetaDataX = char ; // c
+} MetaData Pad { i8 metadata , string stringy , int8 As `{ , }` , }")).
+Eval vm_compute in ("<<<M109>>>" ++ check (runes_of_ascii "
+options
+{
+charz  = ""a\\""
+    // trailing space 
+    rootA
+=""packet"" ; x= ""a	b"" ;
+    // " ++ [27880; 37322]%N ++ runes_of_ascii "
+    rootA =
+string}")).
+Eval vm_compute in ("<<<M953>>>" ++ check (runes_of_ascii "packet A {
+    u16 len @lengthOf(body) `
+x`,
+    u32 crc @calculatedFrom(""CRC32"") `
+x`,
+    string body,
 }")).
-Eval vm_compute in ("<<<M1160>>>" ++ check (runes_of_ascii "MetaData leftPad { chars MetaDataX , } packet repeatCount
-// c
-{ char[ 255 ] uint8x `" ++ [233]%N ++ runes_of_ascii "` , } MetaData pack { As Foo , }")).
-Eval vm_compute in ("<<<M218>>>" ++ check (runes_of_ascii "
-MetaData
-uint8x { char[ 007
-    ]leftPad ,Pad
-T ,u64 BodyLength , char[] int  ,float
-Z9_ , float32 metadata
-    , }
-")).
-Eval vm_compute in ("<<<M1803>>>" ++ check (runes_of_ascii "
-
-  packet
-
-u
-
-{ 
-@tag(	10 // a // b
-)tag  @lengthOf(A
-
-    // " ++ [128512]%N ++ runes_of_ascii " emoji
-    // a // b
-
-),repeat  options1 , }
-
-")).
-Eval vm_compute in ("<<<M1276>>>" ++ check (runes_of_ascii "options {
-    LittleEndian = true;
-}
-root packet P {
-    u16 a,
-    u32 Sum @calculatedFrom(""CRC32""),
-}
-")).
-Eval vm_compute in ("<<<M950>>>" ++ check (runes_of_ascii "packet A {
+Eval vm_compute in ("<<<M918>>>" ++ check (runes_of_ascii "packet A {
     Inner {
-        u8 x `x
-`,
+        u8 x `a
+b`,
         Deep {
-            u8 y `x
-`,
+            u8 y `a
+b`,
         },
     },
 }")).
-Eval vm_compute in ("<<<M1>>>" ++ check (runes_of_ascii "MetaData  crc {  Pad T
-, zchar[
-    0123456789
-    ] a1 ,int8 trueish// c
-, } packet float{ }
-")).
-Eval vm_compute in ("<<<M869>>>" ++ check (runes_of_ascii "packet A {
-  match k as n {
-    [1, ""bb"", 007, ""d"", 5, ""f"", 7, ""h"", 9] : B,
-    2 : C
-  },
+Eval vm_compute in ("<<<M972>>>" ++ check (runes_of_ascii "packet A {
+    Inner {
+        u8 x `%`,
+        Deep {
+            u8 y `%`,
+        },
+    },
 }")).
-Eval vm_compute in ("<<<M633>>>" ++ check (runes_of_ascii "
-packet
-    asx {match u128 as `lengthOf
-{
-//	t
-// `tick` ""quote"" 'q'
-255 : x ,
-    } ,	}")).
-Eval vm_compute in ("<<<M1821>>>" ++ check (runes_of_ascii "MetaData crc {
-    Pad T,
-    zchar[0123456789] a1,
-    int8 trueish,
+Eval vm_compute in ("<<<M93>>>" ++ check (runes_of_ascii "packet
+    Foo
+{float64
+    a1,
+string Z9_ @lengthOf(Logon)`line1
+line2`
+    ,
 }
-
-packet float {
-}")).
-Eval vm_compute in ("<<<M1534>>>" ++ check (runes_of_ascii "
-packet A {
-
-    Inner { match
-k as
-n
-    {	[
-
-1
-
-    , 22
-]
-
-: B ,	}
-, 
-} 
-, }
+// " ++ [128512]%N ++ runes_of_ascii " emoji
 ")).
-Eval vm_compute in ("<<<M847>>>" ++ check (runes_of_ascii "packet A {
+Eval vm_compute in ("<<<M877>>>" ++ check (runes_of_ascii "packet A {
   match k as n {
-    [1, 22, ""c c"", 4, 5, ""f"", 7] : B,
+    [1, 22, 007, 4, 5, 66, 7, 8, 9, 10] : B
     2 : C
   },
 }")).
-Eval vm_compute in ("<<<M1766>>>" ++ check (runes_of_ascii "
+Eval vm_compute in ("<<<M864>>>" ++ check (runes_of_ascii "packet A {
+  match k as n {
+    [1, 22, 007, 4, 5, 66, 7, 8, 9] : B
+    2 : C
+  },
+}")).
+Eval vm_compute in ("<<<M821>>>" ++ check (runes_of_ascii "packet A {
+  match k as n {
+    [""a"", ""bb"", 007, ""d"", ""e""] : B,
+    2 : C
+  },
+}")).
+Eval vm_compute in ("<<<M1528>>>" ++ check (runes_of_ascii "packet
 
-  options
-    {  // " ++ [128512]%N ++ runes_of_ascii " emoji
-    Packet 
-=// `tick` ""quote"" 'q'
+    A 
+{ 
+B	b
 
-  char[ 3
-]} ")).
-Eval vm_compute in ("<<<M811>>>" ++ check (runes_of_ascii "packet A {
+`x
+`
+
+,
+
+B`x
+` 
+,
+repeat  B
+bs
+    `x
+`
+
+    , }")).
+Eval vm_compute in ("<<<M1118>>>" ++ check (runes_of_ascii "packet A {
+    match k as n {
+        1 : B // c
+        , // d
+    },
+}")).
+Eval vm_compute in ("<<<M793>>>" ++ check (runes_of_ascii "packet A {
   match k as n {
-    [""a"", ""bb"", 007, ""d""] : B
+    [1, 22, ""c c""] : B,
     2 : C
   },
 }")).
-Eval vm_compute in ("<<<M797>>>" ++ check (runes_of_ascii "packet A {
-  match k as n {
-    [""a"", ""bb"", 007] : B,
-    2 : C
-  },
-}")).
-Eval vm_compute in ("<<<M780>>>" ++ check (runes_of_ascii "packet A {
-  match k as n {
-    [""a"", ""bb""] : B,
-    2 : C
-  },
-}")).
-Eval vm_compute in ("<<<M939>>>" ++ check (runes_of_ascii "MetaData M {
-    u8 x `a
-    b
-  c`,
-    T t `a
-    b
-  c`,
-}")).
-Eval vm_compute in ("<<<M1933>>>" ++ check (runes_of_ascii "MetaData M {
-    u8 x `
-        `,
-    T t `
-        `,
-}")).
-Eval vm_compute in ("<<<M1200>>>" ++ check (runes_of_ascii "packet
-// c
-body { i32 f32a `{ , }` , } options { }")).
-Eval vm_compute in ("<<<M251>>>" ++ check (runes_of_ascii "
-root packet
-chars
-{
-    i16 leftPad
-    , }
-")).
-Eval vm_compute in ("<<<M1850>>>" ++ check (runes_of_ascii "options {
-    a1 = ""packet"";
-}// @lengthOf(")).
-Eval vm_compute in ("<<<M1759>>>" ++ check (runes_of_ascii "root packet chars {
-    i16 leftPad,
-}")).
-Eval vm_compute in ("<<<M928>>>" ++ check (runes_of_ascii "root packet A {
-    u8 x `a
+Eval vm_compute in ("<<<M916>>>" ++ check (runes_of_ascii "packet A {
+    B b `a
+b`,
+    B `a
+b`,
+    repeat B bs `a
 b`,
 }")).
-Eval vm_compute in ("<<<M1405>>>" ++ check (runes_of_ascii "options {
-    u8x = ""packet"";
-}")).
-Eval vm_compute in ("<<<M1077>>>" ++ check (runes_of_ascii "MetaData M {
-}// c
-options {}")).
-Eval vm_compute in ("<<<M1450>>>" ++ check (runes_of_ascii "
-// packet A { u8 x, }
- 
-")).
-Eval vm_compute in ("<<<M153>>>" ++ check (runes_of_ascii "// trailing space 
+Eval vm_compute in ("<<<M1893>>>" ++ check (runes_of_ascii "options
+    { BodyLength
 
-")).
-Eval vm_compute in ("<<<M1131>>>" ++ check (runes_of_ascii "MetaData
-// c
-u { }")).
-Eval vm_compute in ("<<<M1022>>>" ++ check (runes_of_ascii "// c" ++ [8239]%N ++ runes_of_ascii "
-packet A {
-}")).
-Eval vm_compute in ("<<<M1004>>>" ++ check (runes_of_ascii "packet A {
-}// c" ++ [8202]%N)).
-Eval vm_compute in ("<<<M1071>>>" ++ check (runes_of_ascii "packet A {
+    =  true ;string_
+=	false ;}")).
+Eval vm_compute in ("<<<M784>>>" ++ check (runes_of_ascii "packet A { Inner { match k as n { [1,22] : B, }, }, }")).
+Eval vm_compute in ("<<<M1525>>>" ++ check (runes_of_ascii "
+options
+
+{
+A
+= 
+	// c
+  ""// no comment""
+
 }
 
-
 ")).
-Eval vm_compute in ("<<<M399>>>" ++ check (runes_of_ascii "packet")).
-Eval vm_compute in ("<<<M746>>>" ++ check (runes_of_ascii "UXk")).
+Eval vm_compute in ("<<<M1497>>>" ++ check (runes_of_ascii "
+packet
+
+    A
+	{
+    } 
+    // c" ++ [133]%N ++ runes_of_ascii "
+ 
+")).
+Eval vm_compute in ("<<<M1194>>>" ++ check (runes_of_ascii "options { A = ""// no comment"" }
+// c
+")).
+Eval vm_compute in ("<<<M980>>>" ++ check (runes_of_ascii "root packet A {
+    u8 x `%%d%!`,
+}")).
+Eval vm_compute in ("<<<M1295>>>" ++ check (runes_of_ascii "root packet P {
+    string s,
+}
+")).
+Eval vm_compute in ("<<<M1047>>>" ++ check (runes_of_ascii "packet A {
+ u8 x `d" ++ [8287]%N ++ runes_of_ascii "`, // c" ++ [8287]%N ++ runes_of_ascii "
+}")).
+Eval vm_compute in ("<<<M1535>>>" ++ check (runes_of_ascii "  MetaData
+
+    u{
+    }
+")).
+Eval vm_compute in ("<<<M1146>>>" ++ check (runes_of_ascii "root packet
+// c
+a1 { }")).
+Eval vm_compute in ("<<<M306>>>" ++ check (runes_of_ascii "//
+packet int{ }
+//
+")).
+Eval vm_compute in ("<<<M1051>>>" ++ check (runes_of_ascii "// c" ++ [11]%N ++ runes_of_ascii "
+packet A {
+}")).
+Eval vm_compute in ("<<<M1053>>>" ++ check (runes_of_ascii "packet A {
+}// c" ++ [12]%N)).
+Eval vm_compute in ("<<<M1511>>>" ++ check (runes_of_ascii "packet _x {
+}")).
+Eval vm_compute in ("<<<M1029>>>" ++ check (runes_of_ascii "// c" ++ [8232]%N)).
